@@ -55,4 +55,10 @@ def enc (b : Bytes) : Str := encNat (b.map UInt8.toNat)
 def dec (s : Str) : Option Bytes :=
   (decQuads (s.filter fun c => c ≠ '\r' ∧ c ≠ '\n')).map (·.map Nat.toUInt8)
 
+/-- the encoding as the bytes written to a file / into an output line (the text is ASCII) -/
+def encBytes (b : Bytes) : Bytes := (enc b).map fun c => c.toNat.toUInt8
+
+/-- decoding of bytes read from a file -/
+def decBytes (bs : Bytes) : Option Bytes := dec (bs.map fun b => Char.ofNat b.toNat)
+
 end Anonymongo.Base64
